@@ -377,7 +377,8 @@ Definition tITAL := 16.      (* mid-row italics while the pen colour is not whit
 Definition tCLEAR := 32.     (* paint-on PAC for a row that shows something *)
 Definition tDER := 64.       (* DER with something to delete *)
 Definition tSPACE := 128.    (* paint-on: first pair of characters after a PAC / mid-row code ends in a space, pen not default *)
-Definition tNEGCUR := 512.   (* pop-on / paint-on PAC to the left of what the addressed row already holds (colour PACs: column 1) *)
+Definition tNEGCUR := 512.   (* pop-on / paint-on PAC for a row that already holds text, without indent (colour / italics PAC) or
+                                to the left of that text *)
 Definition tCLAMP := 1024.   (* pop-on / paint-on PAC more than one column to the right of what the addressed row already holds *)
 Definition tROW0 := 2048.    (* roll-up characters after EDM with no PAC / RUx in between *)
 Definition tOVER := 4096.    (* a character is stored over a cell that already shows one *)
@@ -422,7 +423,7 @@ Definition word_triggers (s : scr) (w : Z) (g : tstate) : Z * tstate :=
       let pos := match md s with
                  | RollUp _ => 0
                  | _ => if forallb is_blank row then 0
-                        else bor (if col <? first_col row 0 then tNEGCUR else 0) (if last_col row 0 (-1) + 1 <? col then tCLAMP else 0)
+                        else bor (if (d_indent d =? -1) || (col <? first_col row 0) then tNEGCUR else 0) (if last_col row 0 (-1) + 1 <? col then tCLAMP else 0)
                  end in
       (bor (bor base clr) pos, mkTst (match md s with PaintOn => 0 | _ => gap + 1 end) true (if direct then false else noact))
     else if c =? cMidRow then
